@@ -456,7 +456,12 @@ func (c *Ctx) ringMemorySafety() {
 			continue
 		}
 		if recvNamed(fn) == "buffer" {
-			entries = append(entries, fn) // ringCopy is analysed in the context of its callers
+			// ringCopy and the private helpers that only the ring's own methods call are analysed in the context
+			// of their callers (what they are handed is what those callers established)
+			if fn.Object() != nil && !fn.Object().Exported() && c.calledOnlyFromRing(fn) {
+				continue
+			}
+			entries = append(entries, fn)
 		}
 	}
 	c.ringMemorySafetyRest(an, entries)
@@ -464,6 +469,23 @@ func (c *Ctx) ringMemorySafety() {
 
 // ringAnalyzer: engine B with the ring's size invariant (established by the constructor, see ringMemorySafety)
 // and the documented precondition of the producer-side calls.
+// calledOnlyFromRing: fn has library callers and each of them is a method of the ring buffer.
+func (c *Ctx) calledOnlyFromRing(fn *ssa.Function) bool {
+	callers := c.P.Callers(fn)
+	if len(callers) == 0 {
+		return false
+	}
+	for _, site := range callers {
+		if _, isCall := site.(*ssa.Call); !isCall {
+			return false
+		}
+		if recvNamed(site.Parent()) != "buffer" || site.Parent() == fn {
+			return false
+		}
+	}
+	return true
+}
+
 func (c *Ctx) ringAnalyzer() *bounds.Analyzer {
 	minSize := c.ringMin
 	an := bounds.NewAnalyzer(c.P)
